@@ -24,7 +24,9 @@ CONSTANTS Layouts     \* set of [items : Seq(Item), pkgdoc, build, imports, sibl
    [k |-> "intf", id, named (TRUE: the interface is called Convergen), marked (doc has a :convergen line),
          lookalike (doc has marker-like text that is no marker), doc (own non-notation doc lines), gen,
          nmeth, short, oneline, mdoc, trail, after, gap, long (a comment line much longer than the directive line below it),
-         nm (how the interface is called relative to the file's other converter interface: std | prefix | long)]
+         nm (how the interface is called relative to the file's other converter interface: std | prefix | long),
+         mention (a PROSE line of the doc comment - of each method's doc comment for a converter interface - names a
+         directive such as //go:generate in the middle of the line; prose is carried over / forwarded like any other line)]
    [k |-> "tmark", id]     a non-interface type whose doc carries a :convergen line
    [k |-> "vmark", id]     a VARIABLE of an interface type whose doc carries a :convergen line (no interface declaration)
    [k |-> "float", id]     a comment attached to nothing
